@@ -154,11 +154,17 @@ class Seq:
         if k == "call" and n.get("def", "").endswith("write_relationship") and len(n.get("args", [])) >= 3 and self.derives(n["args"][1], self.counter):
             ty = hirq.strip(n["args"][2])
             label = ty.get("def") if ty.get("k") == "path" else hirq.lit_value(ty)
+            if ty.get("k") == "path" and not ty.get("def") and ty.get("lid") is not None:
+                label = ("lid", ty["lid"])  # a parameter of a helper: resolved at the call site
             tgt = None
             if len(n["args"]) > 3:
                 tgt = n["args"][3]
             self.events.append({"kind": "rel", "label": label, "guards": list(guards), "loops": list(loops), "ln": n.get("ln"), "target": tgt})
-        if k in ("call", "mcall") and (n.get("def") or "").startswith("structs::") and (n.get("def") or "").split("::")[-1].startswith("write_to") and any(self.counter in _local_lids(a) for a in n.get("args", [])):
+        delegated = (n.get("def") or "").startswith("structs::") and (n.get("def") or "").split("::")[-1].startswith("write_to")
+        # ... or a private helper of the writer module that is handed the counter itself (`&mut r_id`): it writes with the
+        # current id and advances it
+        helper = k == "call" and (n.get("def") or "").startswith("writer::") and not (n.get("def") or "").endswith("write_relationship") and (n.get("def") or "") in self.fb.hir
+        if k in ("call", "mcall") and (delegated or helper) and any(self.counter in _local_lids(a) for a in n.get("args", [])):
             # delegated: the callee writes r:id attributes with the counter it is given
             cd = n["def"]
             if cd in self.fb.hir:
@@ -167,8 +173,14 @@ class Seq:
                 off = 1 if n.get("k") == "mcall" else 0
                 plid = ch["params"][idx + off].get("lid")
                 sub = Seq(self.fb, cd).run(counter=plid)
+                plids = [p_.get("lid") for p_ in ch["params"]]
                 for e in sub.events:
                     e2 = dict(e)
+                    if isinstance(e2.get("label"), tuple) and e2["label"][0] == "lid" and e2["label"][1] in plids:
+                        ai = plids.index(e2["label"][1]) - off
+                        if 0 <= ai < len(n["args"]):
+                            ty_ = hirq.strip(n["args"][ai])
+                            e2["label"] = ty_.get("def") if ty_.get("k") == "path" and ty_.get("def") else (hirq.lit_value(ty_) if ty_.get("k") == "lit" else e2["label"])
                     e2["guards"] = list(guards) + e["guards"]
                     e2["loops"] = list(loops) + e["loops"]
                     e2["via"] = cd
